@@ -56,12 +56,37 @@ def parse_case(lines):
             "cmdep": w[6], "acfg": w[7], "acmd": w[8], "exists": w[9], "var": w[10]}
 
 
+def entitled_for_zone(c, z):
+    """Would a sender of zone z be entitled to this update-class message?  (Python twin of `entitledZoneB` for the
+    classes stateUpdate / checkResult / execResult, lean/IcingaModel/C13/Spec.lean.)"""
+    f = c["forest"]
+    if c["method"] == "event::ExecutedCommand":
+        return c["exists"] == "1" and c["execzone"] != "-" and f.below(int(c["execzone"]), z)
+    if f.within(c["objzone"], z):
+        return True
+    return c["method"] == "event::CheckResult" and c["cmdep"] == "1"
+
+
 # Narrow classifiers of the recorded defects.  Each one is the negation of the extra hypothesis of the
 # corresponding `…_partial` theorem in lean/IcingaProofs/C13.lean.
 def c13_own_zone_sender_not_checked(clause, c):
-    """F-C13a: update-class method, sender is the receiver's own-zone peer (FromZone comes from the message)."""
-    return (clause == "applied_only_if_entitled" and c["method"] in UPDATE_METHODS
-            and c["sender"] == "a%d" % c["forest"].local)
+    """F-C13a = the class `inFC13a` of Spec.lean: update-class method, the sender is the receiver's own-zone peer, and
+    the zone the code judges the message by — the message's own `originZone` field — is absent / names no zone
+    (FromZone null, every guard skipped) or names a zone that IS entitled (the peer merely claims it).  An own-zone
+    sender whose claimed zone is NOT entitled is refused today (theorem own_zone_claim_not_entitled_is_refused):
+    a spec failure there is a new violation, not F-C13a."""
+    if not (clause == "applied_only_if_entitled" and c["method"] in UPDATE_METHODS
+            and c["sender"] == "a%d" % c["forest"].local):
+        return False
+    if c["origin"] in ("-", "?"):
+        return True
+    try:
+        z = int(c["origin"])
+    except ValueError:
+        return False
+    if z < 0 or z >= len(c["forest"].parent):
+        return False
+    return entitled_for_zone(c, z)
 
 
 # F-C13b (pki::UpdateCertificate without endpoint, /repo ba4edd4) and F-C13c (event::SetRemovalInfo ignoring the
@@ -101,34 +126,58 @@ class C13(Check):
                          "removal_info_only_from_own_zone_or_above",
                          "accept_implies_entitled_partial", "accept_implies_entitled_counterexample",
                          "accept_implies_entitled_counterexample_claimed_origin", "own_zone_sender_is_not_checked",
-                         "anonymous_only_certificate", "refused_is_noop", "heartbeat_is_noop", "entitledB_sound"]
+                         "anonymous_only_certificate", "refused_is_noop", "heartbeat_is_noop", "entitledB_sound",
+                         "accepted_is_entitledB_or_fc13a", "accept_implies_entitled_or_claimed",
+                         "own_zone_claim_not_entitled_is_refused", "specStep_none_of", "model_step_satisfies_spec",
+                         "model_trace_satisfies_spec_partial", "model_trace_counterexample", "refused_observes_nothing",
+                         "update_object_needs_accept_config", "delete_object_only_api_package",
+                         "entitled_foreign_update_is_accepted"]
     technique = ("Lean 4 proof (decision logic stated outright over an arbitrary zone forest) about a hand-written decision table with one row "
                  "per registered JSON-RPC method (row set forced by a table regenerated from REGISTER_APIFUNCTION on every run); correspondence "
                  "by driving every registered ApiFunction through the real JsonRpcConnection::MessageHandler on an in-process cluster node "
                  "and diffing full before/after snapshots")
-    level_text = ("Machine-checked theorems (Lean 4 kernel) over ALL zone forests, contexts and walk fuels: a message that gets past the guards of "
-                  "its handler comes from an authenticated, configured endpoint whose zone is entitled to it — in full for zone-internal bookkeeping "
-                  "(8 methods), config::Update/UpdateObject/DeleteObject incl. accept_config, event::ExecuteCommand incl. accept_commands, "
-                  "Hello/SetLogPosition/Heartbeat, pki::UpdateCertificate, and 'anonymous connections get nothing but the certificate request past "
-                  "the guards' in full; for state/event updates (incl. SetRemovalInfo), check results and execution results under the hypothesis "
-                  "'sender not in the receiver's own zone' — the excluded case with a kernel-checked "
-                  "counterexample that the harness reproduces on the real code (known finding F-C13a; F-C13b/c were found by this check and are repaired). The decision table is tied to the code "
-                  "by invoking all 28 registered methods through the real MessageHandler for every sender/origin/object-zone relation in a 7-zone "
-                  "forest of depth 3 from three receiver positions plus seeded random forests, authenticated/unverified/unconfigured/anonymous "
-                  "senders, accept_config/accept_commands on/off, and comparing 'anything changed' (all objects serialised, data directory, "
-                  "outgoing queues, command/notification counters) and the computed FromZone with the model; the same Entitled predicate is "
-                  "evaluated on the implementation's observations")
+    level_text = ("Machine-checked theorems (Lean 4 kernel) over ALL zone forests, contexts and walk fuels. (1) Whole table, no hypothesis "
+                  "(accept_implies_entitled_or_claimed): a message that gets past the guards of its handler comes from an authenticated, "
+                  "configured endpoint whose zone is entitled to it, OR it has exactly the shape of known finding F-C13a (update class, sender in "
+                  "the receiver's own zone, originZone absent or naming a zone that is itself entitled); an own-zone sender naming a zone that is "
+                  "NOT entitled is refused (own_zone_claim_not_entitled_is_refused). Per class in full: zone-internal bookkeeping (8 methods), "
+                  "config::Update/UpdateObject/DeleteObject incl. accept_config in every branch (create / modify existing / delete, only API "
+                  "objects deleted), event::ExecuteCommand incl. accept_commands, Hello/SetLogPosition/Heartbeat, pki::UpdateCertificate, and "
+                  "'anonymous connections get nothing but the certificate request past the guards'. (2) Whole trace "
+                  "(model_trace_satisfies_spec_partial): for every forest and every sequence of messages with arbitrary effects, the SAME "
+                  "executable specification predicate that the driver evaluates on the implementation's observations finds no violation in the "
+                  "model's observations (nothing observable for a message that does not apply; connection bookkeeping confined to the sender's own "
+                  "Endpoint object), provided no message lies in the class F-C13a; kernel-checked counterexamples for the excluded class on "
+                  "message and trace level, reproduced on the real code by the harness (F-C13b/c were found by this check and are repaired). "
+                  "The decision table is tied to the code by invoking all 28 registered methods through the real MessageHandler for every "
+                  "sender/origin/object-zone relation in a 7-zone forest of depth 3 from three receiver positions plus seeded random forests, "
+                  "authenticated/unverified/unconfigured/anonymous senders, accept_config/accept_commands on/off, command endpoint = none / sender / "
+                  "sender's zone mate / receiver, every branch of config::UpdateObject (6 variants), config::DeleteObject (3), config::Update (empty, "
+                  "real files without/with checksums, staged validation succeeding/failing through a spawned validator process), "
+                  "event::ExecuteCommand (legacy check, API execution with source/deadline, named local endpoint, forwarding incl. both "
+                  "error-notice branches), comparing 'anything changed' (all objects serialised, data directory, outgoing queues, "
+                  "command/notification counters), 'anything but the sender's Endpoint object changed' and the computed FromZone with the model; "
+                  "the specification (applied_only_if_entitled, anonymous_only_certificate, session_only_own_endpoint) is evaluated on the "
+                  "implementation's observations")
     level_note = ("Trusted: Lean kernel (+ propext, Classical.choice, Quot.sound), translator gen/c13_apifunctions.py, harness/driver, the sampled "
-                  "correspondence. Certificate verification is an input bit. Not modelled: what an accepted update does to the object, the "
-                  "two error-notice branches of the ExecuteCommand forwarding path (child without ExecuteArbitraryCommand, child zone cannot access the checkable), parameter validation inside handlers; the "
-                  "own-certificate branch of pki::UpdateCertificate is exercised by two corpus cases only.")
+                  "correspondence. Certificate verification is an input bit. Modelled as predicates, not as state: what an accepted update does "
+                  "to the object is an arbitrary effect (any Obs) in the whole-trace theorem; config::UpdateObject's create/modify/no-op "
+                  "decision, DeleteObject's package test and the two error-notice branches of the ExecuteCommand forwarding path are in the "
+                  "model (the visibility of the notice assumes the harness's topology: one peer in the own zone, everybody connected). Not "
+                  "modelled: parameter validation inside handlers, replies to the sender (counted, not compared), in-memory state that is not a "
+                  "serialised attribute; the own-certificate branch of pki::UpdateCertificate is exercised by two corpus cases only. The class "
+                  "`session` (Hello, SetLogPosition, Heartbeat: any authenticated configured endpoint) is not named by the property's sentence; "
+                  "the specification confines it to the sender's own Endpoint object.")
     trusted_base = [
         "translator gen/c13_apifunctions.py (regex over REGISTER_APIFUNCTION in /repo/lib; a lost anchor is reported as a broken tie)",
         "modelled, not verified: TLS certificate verification (`authenticated` is an input bit); every configured endpoint belongs to a zone "
         "(Endpoint::OnAllConfigLoaded enforces it); zone chains of loaded configurations have at most 33 levels (Zone::OnAllConfigLoaded), "
         "the model's IsChildOf walks with fuel 40 (the theorems hold for every fuel)",
-        "the decision table covers the guards in front of each handler's effect, for well-formed parameters; the effect itself, the "
-        "the two error-notice branches inside the ExecuteCommand forwarding path are outside the model (the harness keeps them from being taken); both branches of pki::UpdateCertificate sit behind the one modelled guard",
+        "the decision table covers the guards in front of each handler's effect and the effect's own no-op conditions (config::UpdateObject "
+        "version/exists/config text, config::DeleteObject package, ExecuteCommand forwarding error notices), for well-formed parameters; the "
+        "effect itself is an arbitrary observation; both branches of pki::UpdateCertificate sit behind the one modelled guard",
+        "config::Update with real files: the staged configuration is 'validated' by /bin/true resp. /bin/false standing in for "
+        "`icinga2 daemon --validate` (ApiListener::TryActivateZonesStage runs argv[0]); the copy to production and the failure record are real",
     ]
     assumptions = [
         "objects are created by the harness directly (new Host/Service/Notification/Comment + Register/OnAllConfigLoaded/Activate), "
@@ -138,7 +187,8 @@ class C13(Check):
         "JsonRpcConnection::MessageHandler as decoded dictionaries without `ts` and `id`",
         "'applied' = any ConfigObject's serialisation (FAEphemeral|FAConfig|FAState) differs, or the data directory listing/content "
         "differs (replay log excluded), or a message was queued to a connection other than the sender's, or the harness's check command ran / "
-        "a notification signal fired; a message queued back to the sender is a reply, not an application",
+        "a notification signal fired; a message queued back to the sender is a reply, not an application; 'foreign' = a changed object "
+        "other than the Endpoint object named by the sender's identity",
     ]
 
     # -- translator ----------------------------------------------------------------------------
@@ -217,7 +267,9 @@ class C13(Check):
                     "position (thorough: also sibling and unrelated root): for each of the 28 registered methods the complete grid "
                     "sender (every zone's endpoint incl. own-zone peer, unverified certificate, unconfigured identity, anonymous) x originZone "
                     "(absent, unknown, every zone for own-zone senders; absent/local for the others) x object zone (every zone, unset) resp. "
-                    "execution-endpoint zone / ExecuteCommand target node in every zone (forwarding) / accept_config / accept_commands / command-endpoint bit, the remaining flags rotating; plus "
+                    "execution-endpoint zone / ExecuteCommand target node in every zone (forwarding, incl. the two error-notice branches) / accept_config / "
+                    "accept_commands / command endpoint (none, sender, sender's zone mate, receiver) / every branch variant of config::UpdateObject, "
+                    "config::DeleteObject, config::Update and local ExecuteCommand, the remaining flags rotating; plus "
                     "seeded random forests of depth <= 3 (3 quick / 24 thorough) sampled from the same grid, plus a malformed stream "
                     "(named objects do not exist); corpus cases first. evaluations = messages handled; a case is non-trivial when the "
                     "connection has an endpoint, i.e. the zone guards (not the anonymous test) decided; distinct by (forest, operation) text "
@@ -239,7 +291,8 @@ class C13(Check):
             tag = "new"
             for k in known:
                 fn = CLASSIFIERS.get(k.get("classifier"))
-                if fn and c and fn(kv["clause"], c):
+                # the driver's own verdict (Lean `inFC13a`) must agree with the Python classifier
+                if fn and c and fn(kv["clause"], c) and kv.get("fc13a", "1") == "1":
                     tag = k["id"]
                     break
             key = (kv["clause"], kv["method"], tag)
